@@ -15,7 +15,7 @@ OP_OWNER = {
     "tojson": ["C09", "C14"], "jsonroundtrip": ["C14"],
     "wfault": ["C15"],
     "wf": ["C10"], "callbacks": ["C10"],
-    "sortadv": ["C03"],
+    "sortadv": ["C03"], "conc": ["C11"],
     "ryu": ["C16"], "ryudec": ["C16"],
     "like": ["C18"], "likefilter": ["C18"],
     "tosql": ["C19"], "sqlread": ["C19"], "sqlfault": ["C15"], "sqlreadfault": ["C15"],
@@ -56,6 +56,11 @@ PROPS = {
                          {"section": "hist", "tag": "hist-new", "opt": "newonly=1", "quick": 150, "thorough": 1500, "cover_ops": {"new"}}]},
     "C09": {"lean": ["QF.Props.C06"], "extra_ns": ["QF.Props.C06"],
             "sections": [dict(hist("hist", ["equals", "rebuild", "rebuild", "sort", "sort", "filter", "slice"], quick=250), cover_ops=None)]},
+    "C11": {"lean": ["QF.Props.C11"],
+            "sections": [{"section": "conc", "race": True, "quick": 150, "thorough": 2000, "cover_ops": {"CC"}}],
+            "rule": "cases = batches of 6..12 operations (Filter incl. like/ilike, Sort, Distinct, GroupBy/Aggregate, Apply, FilteredApply, Eval with one shared context, Select/Slice/Copy, ToCSV/ToJSON/String, Equals) "
+                    "started together on one frame family, each batch three times, in a binary built with the race detector; every result is compared with the result of the same operation run alone",
+            "open_goals": ["the Go memory model is not modelled: absence of races in the real code is observed by the race detector on the explored schedules, not proved"]},
     "C12": {"lean": ["QF.Props.C12"],
             "sections": [{"section": "csvraw", "quick": 300, "thorough": 3000, "cover_ops": {"C"}},
                          {"section": "csvread", "quick": 300, "thorough": 3000, "cover_ops": {"CV"}}],
@@ -113,6 +118,9 @@ def _lt(text, technique, note=""):
 
 
 LEVEL_TEXT = {
+    "C11": _lt("interleaving_deterministic: for any number of operations that write only to arrays they allocate themselves and for every schedule, the shared region is never written and each operation ends where it ends alone. The real code is run under the race detector with batches of concurrent operations on shared and derived frames; results are compared with the sequential ones.",
+               "Lean 4 proof (all schedules, ownership discipline) + race-detector runs as execution-based validation",
+               "PARTIAL: the theorem is about the ownership model; that the Go code obeys the discipline (no write to shared storage) is observed by the race detector and by C01's re-observation, not proved from the source. Go memory model, unsafe string views and math/rand's lock are outside the model."),
     "C19": _lt("scan_text: the Column.Scan state machine reproduces any sequence of texts and NULLs with leading NULLs back-filled. ToSQL against a recording driver: statement text and arguments per row compared with insertText/toSqlS for every dialect option; ReadSQL of scripted result sets compared with readSqlS.",
                "Lean 4 proof (scan state machine) + differential correspondence with a recording database/sql driver",
                "database/sql argument conversion and the driver contract are assumed."),
